@@ -390,7 +390,9 @@ func drawStr(t *rapid.T, label string) ([]byte, bool) {
 		var v uint64
 		fmt.Sscan(base[sp[0]:sp[1]], &v)
 		var repl string
-		switch rapid.IntRange(0, 5).Draw(t, label+"AK") {
+		switch rapid.IntRange(0, 6).Draw(t, label+"AK") {
+		case 6: // a count of zero (T0M: zero minutes), with signs and leading zeros, and the edges of the RFC ranges
+			repl = rapid.SampledFrom([]string{"0", "00", "+0", "-0", "000", "1", "59", "60", "48", "49", "99"}).Draw(t, label+"AZ")
 		case 0:
 			repl = fmt.Sprint(v + 1<<8*uint64(rapid.IntRange(1, 3).Draw(t, label+"AM")))
 		case 1:
@@ -690,7 +692,7 @@ func TestC10_DamagedTexts(t *testing.T) {
 // than the value it guards lets exactly these through to a table index or a slice bound.
 
 var c10Alias = newPart("C10", "alias-numbers",
-	"complete product: every run of digits in 9 well-formed suite strings / URLs x {v+256, v+512, v+65536, v+2^32, 20 digits ending in v, v-256, +v, -v, 0v, 00v} through NewRawSuite (+ use of the result) / ParseOTPAuthURL, and hand-built configurations with digits / hash / challenge format / password hash / time step at v + {2^8, 2^9, 2^16, 2^32} and v - 2^8 (v over the admissible values) through Validate, NewSuite, GenerateOCRA and ValidateOCRA with admissible inputs and a code of the suite's length; oracle: no panic, no hang; every case distinct and non-trivial",
+	"complete product: every run of digits in 9 well-formed suite strings / URLs x {v+256, v+512, v+65536, v+2^32, 20 digits ending in v, v-256, +v, -v, 0v, 00v, and the small values 0, 00, +0, -0, 1, 59, 60, 99 (a count of zero units, the edges of the RFC ranges)} through NewRawSuite (+ use of the result) / ParseOTPAuthURL, and hand-built configurations with digits / hash / challenge format / password hash / time step at v + {2^8, 2^9, 2^16, 2^32} and v - 2^8 (v over the admissible values) through Validate, NewSuite, GenerateOCRA and ValidateOCRA with admissible inputs and a code of the suite's length; oracle: no panic, no hang; every case distinct and non-trivial",
 	checkC10Dmg)
 
 type c10AliasCfgCase struct {
@@ -737,7 +739,7 @@ func TestC10_AliasNumbers(t *testing.T) {
 				fmt.Sscan(base[a:b], &v)
 				vs := fmt.Sprint(v)
 				repl := []string{fmt.Sprint(v + 256), fmt.Sprint(v + 512), fmt.Sprint(v + 65536), fmt.Sprint(v + 1<<32), "18446744073709551616"[:20-len(vs)] + vs,
-					fmt.Sprint(int64(v) - 256), "+" + vs, "-" + vs, "0" + vs, "00" + vs}
+					fmt.Sprint(int64(v) - 256), "+" + vs, "-" + vs, "0" + vs, "00" + vs, "0", "00", "+0", "-0", "1", "59", "60", "99"}
 				for _, r := range repl {
 					i++
 					if ev.Mine(i) {
